@@ -15,7 +15,8 @@ Inductive op :=
 | Begin | Commit | Rollback
 | Insert (r : Z)
 | Select
-| Fail.      (* a statement that fails with a catalog/binder error (reference failure) *)
+| Fail       (* a statement that fails with a catalog/binder error (reference failure) *)
+| FailEarly. (* one that names an unknown DATABASE: it fails before the engine has started the statement, so it does not even fix the snapshot *)
 
 Inductive obs :=
 | ORows (l : list Z)
@@ -44,6 +45,7 @@ Definition local (cm : list Z) (t : txs) (o : op) : list Z * txs * obs :=
   | Fail, NoTx => (cm, NoTx, OErr)
   | Fail, Begun => (cm, Active cm [], OErr)
   | Fail, Active _ _ => (cm, t, OErr)
+  | FailEarly, _ => (cm, t, OErr)
   end.
 
 Definition cget (l : list txs) (c : nat) : txs := nth c l NoTx.
@@ -80,6 +82,7 @@ Definition dec_op (x : sexp) : option (nat * op) :=
   | L [c; A 3; A r] => option_map (fun c => (c, Insert r)) (dec_nat c)
   | L [c; A 4] => option_map (fun c => (c, Select)) (dec_nat c)
   | L [c; A 5] => option_map (fun c => (c, Fail)) (dec_nat c)
+  | L [c; A 6] => option_map (fun c => (c, FailEarly)) (dec_nat c)
   | _ => None
   end.
 
